@@ -98,16 +98,15 @@ fn c06_search_real_partial_prefixes() {
     kani::cover!(true);
 }
 
-/// dlt_storage_header (through the hook) on literal junk ++ a literal storage header ++ two symbolic bytes, with
-/// the REAL search: the reported shift is the junk length, the header fields are those behind the junk, and the
+/// dlt_storage_header (through the hook) on literal junk ++ a literal storage header ++ two symbolic bytes (search
+/// replaced by its specification, like in the harnesses below): the reported shift is the junk length, the header fields are those behind the junk, and the
 /// remainder is what follows the 16 header bytes. (Near-concrete on purpose: it reaches a verdict in seconds for
 /// any implementation of the resync, where the symbolic-message harnesses below may not.)
 #[kani::proof]
 #[kani::unwind(24)]
 #[kani::stub(std::fmt::format, crate::models::fmt_format_stub)]
 #[kani::stub(core::str::from_utf8, crate::models::from_utf8_stub)]
-#[kani::stub(core::arch::x86_64::__cpuid_count, cpuid_count_stub)]
-#[kani::stub(core::arch::x86_64::__cpuid, cpuid_stub)]
+#[kani::stub(dlt_core::parse::forward_to_next_storage_header, crate::models::forward_stub)]
 fn c06_storage_header_behind_literal_junk() {
     const JUNK: [&[u8]; 4] = [b"\xAA", b"\x00\x01\x02", b"DLT", b"xxDLDL"];
     let t: [u8; 2] = kani::any();
